@@ -64,7 +64,9 @@ func c08Ops(rng *Rng, n int, allowText bool) []Action {
 				out = append(out, Action{Op: "redirect", N: rng.Pick2(301, 302), S: "/to"})
 			}
 		case 11:
-			if rng.Chance(1, 3) {
+			if rng.Chance(1, 4) {
+				out = append(out, Action{Op: "binary", N: rng.Pick2(200, 201), S: rng.Pick([]string{"a", "hello", "0123456789abcdef0123456789abcdef"})})
+			} else if rng.Chance(1, 3) {
 				out = append(out, Action{Op: "stream", N: rng.Pick2(200, 206), S: c08Payload(rng)})
 			} else if allowText && rng.Chance(1, 2) {
 				out = append(out, Action{Op: "text", N: rng.Pick2(200, 202), S: rng.Pick(c08Payloads)})
@@ -368,6 +370,17 @@ func modelCommit(prop string, rec *ReqRec, rq *Req, judgePanicked, opaque bool) 
 				http.Redirect(rr, httptest.NewRequest(rec.Method, "http://sim"+rec.Path, nil), p[1], code)
 				if rr.Body.Len() > 0 {
 					write(rr.Body.String())
+				}
+			case "binary":
+				// Context.Binary: headers, then http.ServeContent: WriteHeader(200) (the code passed to Binary is recorded
+				// first, ServeContent then sets 200) and the content, unless the method is HEAD
+				p := strings.SplitN(arg, ":", 2)
+				code, _ := strconv.Atoi(p[0])
+				setStatus(code)
+				setStatus(200)
+				hadCT = true
+				if rec.Method != "HEAD" {
+					write(p[1])
 				}
 			case "stream":
 				p := strings.SplitN(arg, ":", 2)
